@@ -21,6 +21,7 @@ import NumqiProofs.ManifoldPlacement
 import NumqiProofs.ManifoldDiff
 import NumqiProofs.ManifoldVecDiff
 import NumqiProofs.ManifoldSoftmaxDiff
+import Mathlib.LinearAlgebra.Complex.FiniteDimensional
 
 namespace Numqi.C02
 open Numqi Numqi.Manifold Numqi.Manifold.Count Matrix
@@ -47,8 +48,19 @@ theorem count_sphere_coordinate (dim : Nat) (isReal : Bool) : sphereParam dim is
   sphereParam_coordinate dim isReal
 /-- simplex: `d = (d-1) + 1` -/
 theorem count_simplex (dim : Nat) (hd : 1 ≤ dim) : probParam dim = simplexDim dim + 1 := probParam_eq dim hd
-/-- SO(d)/SU(d) charts are minimal -/
-theorem count_so (dim : Nat) (isReal : Bool) : soParam dim isReal = soDim dim isReal := rfl
+/-- SO(d)/SU(d) charts are minimal: the parameter count `d(d-1)/2` resp. `d²-1` of `SpecialOrthogonal.__init__` equals the number of Gell-Mann
+generators of `so(d)` (antisymmetric block) resp. `su(d)` (symmetric + antisymmetric + traceless diagonal) -/
+theorem count_so (dim : Nat) (hd : 1 ≤ dim) (isReal : Bool) : soParam dim isReal = soDim dim isReal := soParam_eq dim hd isReal
+/-- SymmetricMatrix: `d(d+1)/2` resp. `d²` (minus one if traceless) is the number of independent real entries (`#{i ≤ j}` resp. `d²`) -/
+theorem count_symmetric (dim : Nat) (isReal isTrace0 : Bool) : symParam dim isReal isTrace0 = symEntries dim isReal isTrace0 :=
+  symParam_eq dim isReal isTrace0
+/-- Ball: `d` resp. `2d` parameters = real dimension of `ℝ^d` resp. `ℂ^d` -/
+theorem count_ball (dim : Nat) :
+    ballParam dim true = Module.finrank ℝ (EuclideanSpace ℝ (Fin dim)) ∧ ballParam dim false = Module.finrank ℝ (EuclideanSpace ℂ (Fin dim)) := by
+  constructor
+  · simp [ballParam]
+  · simp only [ballParam, Bool.false_eq_true, if_false]
+    rw [← Module.finrank_mul_finrank ℝ ℂ (EuclideanSpace ℂ (Fin dim)), Complex.finrank_real_complex, finrank_euclideanSpace_fin]
 /-- Stiefel polar / qr: `dr = (dr - r(r+1)/2) + r(r+1)/2`, `2dr = (2dr - r²) + r²` -/
 theorem count_stiefel_polar_qr (dim rank : Nat) (h : rank ≤ dim) (isReal : Bool) :
     stiefelParam dim rank isReal .polar false = stiefelDim dim rank isReal + (if isReal then rank * (rank + 1) / 2 else rank * rank)
